@@ -545,3 +545,100 @@ def run_store_verbatim(prog, rep, floor=25):
     if n < floor:
         raise AnalysisBroken('R-STOREVERB: only %d stores found' % n)
     return rule
+
+
+def _strip_conv(n):
+    while True:
+        n = unwrap(n)
+        if n is not None and n.k in ('construct', 'cast'):
+            a = [c for c in n.c if c is not None and c.k != 'defarg']
+            if len(a) == 1:
+                n = a[0]
+                continue
+        return n
+
+
+def run_getter_verbatim(prog, rep, floor=60):
+    """a parameterless front-end getter returns what the backend getter of the same name returns"""
+    rule = rep.rule('R-GETVERB', 'a parameterless front-end getter that asks the backend getter of the same name returns that answer itself (conversions to the front-end type only; for bool a conjunction with the handle test)', floor=floor)
+    n = 0
+    done = set()
+    for f in sorted(prog.funcs.values(), key=lambda f: (f.file, f.line, f.q)):
+        if f.body is None or f.params or not (f.cls or '').startswith('nix::') or f.ret == 'void':
+            continue
+        if any((f.cls or '').startswith(x) for x in ('nix::hdf5', 'nix::util', 'nix::valid')):
+            continue
+        same = [c for c in f.calls() if c.callee.get('name') == f.name and (c.callee.get('cls') or '').startswith('nix::base::I')]
+        if not same:
+            continue
+        pat = (getattr(f, 'pattern', None) or f.q, f.file, f.line)
+        if pat in done:
+            continue        # one obligation per written function, not per instantiation
+        done.add(pat)
+        par = {}
+        for x in f.walk():
+            for c in x.c:
+                if c is not None:
+                    par[c.id] = x
+        for i, c in enumerate(same):
+            cur = c
+            while cur.id in par and par[cur.id].k not in ('return', 'var', 'compound', 'if', 'declstmt'):
+                cur = par[cur.id]
+            top = par.get(cur.id)
+            n += 1
+            key = '%s%s|%d' % (re.sub(r'<.*?>', '<>', f.q), f.sig, i)
+            s = _strip_conv(cur)
+            if s is not None and s.id == c.id and top is not None and top.k == 'var':
+                # named temporary: it must reach the return unmodified
+                lid = top.get('lid')
+                why = None
+                if Sem(prog).mods(f).get(lid):
+                    why = 'modified at line %s' % Sem(prog).mods(f)[lid][0].l
+                for x in f.walk():
+                    if why or x.k != 'ref' or x.decl.get('lid') != lid:
+                        continue
+                    y = x
+                    through = False
+                    while y.id in par:
+                        p2 = par[y.id]
+                        if p2.k == 'call' and p2.get('op') in ('->', '*', '[]') and p2.c and p2.c[0] is not None and unwrap(p2.c[0]).id == unwrap(y).id:
+                            through = True
+                        elif p2.k == 'call' and p2.get('member') and p2.c and unwrap(p2.c[0]).id == unwrap(y).id:
+                            if through and not (p2.callee or {}).get('sig', '').endswith(' const'):
+                                why = 'its value is changed by %s' % p2.src(40)
+                            break
+                        elif p2.k in ('cast', 'paren', 'member') or unwrap(p2).id == unwrap(y).id:
+                            pass
+                        else:
+                            break
+                        y = p2
+                rets = [r for r in f.walk() if r.k == 'return' and r.c and r.c[0] is not None]
+                direct = [r for r in rets if (lambda z: z is not None and z.k == 'ref' and z.decl.get('lid') == lid)(_strip_conv(r.c[0]))]
+                if not why and not direct:
+                    why = 'the named temporary is not what is returned'
+                if why:
+                    rule.bad(key, rep.where(c), f.label(), 'the backend answer is kept in %s and %s before it is returned' % (top.get('name'), why))
+                else:
+                    rule.ok(key, rep.where(c), f.label(), 'returns backend()->%s() through the unmodified temporary %s' % (f.name, top.get('name')))
+                continue
+            if s is not None and s.id == c.id:
+                rule.ok(key, rep.where(c), f.label(), 'returns backend()->%s() itself' % f.name)
+                continue
+            # bool idiom: handle test && backend answer
+            ops = []
+            y = c
+            okb = f.ret == 'bool'
+            while okb and y.id != cur.id:
+                y = par[y.id]
+                if y.k in ('binop',) and y.get('op') in ('&&', '||'):
+                    continue
+                if y.k in ('cast', 'paren', 'construct', 'exprwithcleanups') or unwrap(y).id != y.id:
+                    continue
+                okb = False
+            if okb:
+                rule.ok(key, rep.where(c), f.label(), 'bool: the backend answer combined by && / || only (%s)' % cur.src(50))
+            else:
+                rule.bad(key, rep.where(c), f.label(), 'the backend answer is passed through %s before it is returned: the getter does not return what was stored for some values' % cur.src(60))
+    if n < floor:
+        raise AnalysisBroken('R-GETVERB: only %d getters found' % n)
+    return rule
